@@ -185,6 +185,11 @@ def run(ctx):
     ctx.add_sample({"script": execs[0][:6]})
     ctx.add_sample({"script": execs[-1][:6]})
     pipeline.drive_and_validate(ctx, exe, execs, SPEC_DIR, "MathClockTrace", "Trace.cfg", label="math", nbatch=16)
+    # the helpers are inline (compiler builtins / inline assembly): what the compiler makes of each call site depends on the
+    # compiler and its optimisation level, so the arithmetic lines also run in the release configuration (gcc -O2 -DNDEBUG)
+    exe_rel = build.build_harness("math_adapter_rel", ["math_adapter.c"], cflags=["-Wno-unused-function"], variant="rel")
+    rel_execs = executions(arith_lines(random.Random(ctx.seed + 1), thorough))
+    pipeline.drive_and_validate(ctx, exe_rel, rel_execs, SPEC_DIR, "MathClockTrace", "Trace.cfg", label="math_rel", nbatch=16)
     # evaluations = what the adapter counted (variants x functions), summed over the batch traces
     import glob
     import json
